@@ -145,7 +145,7 @@ struct Gen {
       return p;
     }
     { Rec &oo = op("open"); if ((prop == "C03" || prop == "C13") && g.chance(0.05)) oo.set("how", 1).set("notestopen", 1); }
-    if (prop == "C09") { if (g.chance(0.3)) op("info").set("i", (int64_t)g.range(-1, sr.nlinks)); linear_read(g.chance(0.4)); op("read_float").set("len", 64); }
+    if (prop == "C09") { if (g.chance(0.3)) op("info").set("i", (int64_t)g.range(-1, sr.nlinks)); linear_read(g.chance(0.4)); op("read_float").set("len", 64); if (g.chance(0.5)) op("info").set("i", (int64_t)g.range(-1, sr.nlinks)); }
     else if (prop == "C10") { linear_read(true); op("read_float").set("len", 64); if (g.chance(0.5)) p.add("pktpath").set("frag", (int64_t)g.range(1, 5000)).setu("seed", g.next() % 1000); }
     else if (prop == "C19") { if (!(g.chance(0.15) && gen_laphole())) gen_lap(); }
     else if (prop == "C20") gen_halfrate(seekable);
